@@ -87,6 +87,8 @@ def minimise(sc, inv, jobs, budget_s=120):
         return [same_failure(r, inv) for r in rs]
 
     cur = sc
+    if "threads" in sc:
+        return minimise_threads(sc, inv, jobs, fails, t0, budget_s)
     # 1. ddmin on ops
     n = 2
     while len(cur["ops"]) >= 2 and time.time() - t0 < budget_s:
@@ -128,6 +130,46 @@ def minimise(sc, inv, jobs, budget_s=120):
                 for j in range(len(op["sels"])):
                     s2 = op["sels"][:j] + op["sels"][j + 1:]
                     cands.append(_with_op(cur, i, dict(op, sels=s2)))
+        if not cands:
+            break
+        oks = fails(cands)
+        for c, ok in zip(cands, oks):
+            if ok:
+                cur = c
+                changed = True
+                break
+    return cur
+
+
+def minimise_threads(sc, inv, jobs, fails, t0, budget_s):
+    """E2: turn the seeded schedule into an explicit list of hand-overs, then
+    remove context switches, calls and threads while the same invariant fails."""
+    r = world.run_many(_run_task, [{"scenario": sc}], jobs=1, timeout=60)[0]
+    cur = sc
+    if r.get("ok") and same_failure(r, inv):
+        first = sc["sched"].get("first", 0)
+        if sc["sched"].get("strategy") == "pct":
+            prio = sc["sched"].get("prio", [])
+            first = max(range(len(prio)), key=lambda t: prio[t]) if prio else 0
+        cand = dict(sc, sched={"strategy": "replay", "switches": r["res"]["switches"], "first": first,
+                               "bound": 99})
+        if fails([cand])[0]:
+            cur = cand
+    changed = True
+    while changed and time.time() - t0 < budget_s:
+        changed = False
+        cands = []
+        if cur["sched"].get("strategy") == "replay":
+            sw = cur["sched"]["switches"]
+            for i in range(len(sw)):
+                cands.append(dict(cur, sched=dict(cur["sched"], switches=sw[:i] + sw[i + 1:])))
+        for t, th in enumerate(cur["threads"]):
+            for i in range(len(th["calls"])):
+                th2 = dict(th, calls=th["calls"][:i] + th["calls"][i + 1:])
+                cands.append(dict(cur, threads=cur["threads"][:t] + [th2] + cur["threads"][t + 1:]))
+            if th.get("probe") and t >= 1:
+                th2 = dict(th, probe=None)
+                cands.append(dict(cur, threads=cur["threads"][:t] + [th2] + cur["threads"][t + 1:]))
         if not cands:
             break
         oks = fails(cands)
